@@ -319,7 +319,26 @@ def rule_b3(ctx):
                 ideep = frozenset((r, tuple(p)) for (r, p) in body.deep_sources(ix, 3))
                 direct = [g for g in gs if g[2] == "compare" and body.dominates(g[0], b) and any(overlaps(ikey, gk) for gk in g[1]) and rejecting(body, g[3])]
                 # the index is an element of a vector whose elements were all tested
-                elem = [g for g in elem_guards if body.dominates(g[0], b) and any((r, p[:-1]) in g[1] or (r, p) in g[1] for (r, p) in ikey if p)]
+                def _stem(p):
+                    # (`v[..][0]` / a slice pattern `[x] = v[..]`: every trailing index step leads to an element of the same vector)
+                    q = tuple(p)
+                    while q and q[-1].startswith("["):
+                        q = q[:-1]
+                    return q
+                elem = [g for g in elem_guards if body.dominates(g[0], b) and any((r, p[:-1]) in g[1] or (r, p) in g[1] or (r, _stem(p)) in g[1] for (r, p) in ikey if p)]
+                # ... also when the element reaches the index through a helper of the crate that only takes its slice apart
+                # (`let Some((x, y)) = binary_gate_inputs(&input_wires)`): no arithmetic in the helper
+                if not elem:
+                    for (r, p) in ikey:
+                        if r[0] == "call" and ctx.has_fn(str(r[2])) and ctx.fns[str(r[2])]["kind"] != "closure":
+                            hb = ctx.body(str(r[2]))
+                            pure = not any(st["k"] == "assign" and st["rv"]["k"] in ("binop", "checked_binop") and not st["rv"].get("op", "").startswith(("Eq", "Ne", "Lt", "Le", "Gt", "Ge"))
+                                           for blk in hb.blocks for st in blk["stmts"]) and not any(True for _ in hb.calls() if not hb.blocks[_[0]]["cleanup"])
+                            if not pure:
+                                continue
+                            for a in body.term(r[1])["args"]:
+                                asrc = frozenset((r2, tuple(p2)) for (r2, p2) in body.deep_sources(a, 3))
+                                elem += [g for g in elem_guards if body.dominates(g[0], b) and (asrc & g[1])]
                 # computed index (a - b): not one of the idioms
                 computed = any(r[0] == "rv" for (r, p) in ikey)
                 if direct:
